@@ -164,6 +164,44 @@ impl Clone for TransitionCycle {
             lemma_mod_prev(vehicle_idx as int, c.len() as int);
         }
 //@end
+//@item solution/src/transition/modifications.rs Transition::replace_cycle
+//@retname r
+//@sig
+    requires
+        cycle_idx < self.n(),
+        // caller obligation: the new cycle is a rearrangement of the old one and its counter is exact
+        is_permutation_of(new_cycle.cycle@, self.cyc(cycle_idx as int)),
+        exists|net: &Network, tours: Map<VehicleIdx, Tour>|
+            self.wf(net, tours) && new_cycle.maintenance_counter == spec_cycle_counter(net, tours, new_cycle.cycle@),
+    ensures
+        forall|net: &Network, tours: Map<VehicleIdx, Tour>|
+            self.wf(net, tours) && new_cycle.maintenance_counter == spec_cycle_counter(net, tours, new_cycle.cycle@)
+            ==> #[trigger] r.wf(net, tours), // @obl C15.replace_cycle.wf
+        r.cycles@ == self.cycles@.update(cycle_idx as int, new_cycle), // @obl C15.replace_cycle.membership
+        r.cycle_lookup@ == self.cycle_lookup@,
+        r.empty_cycles@ == self.empty_cycles@,
+//@before "let total_maintenance_violation"
+        proof {
+            let (net, tours) = choose|net: &Network, tours: Map<VehicleIdx, Tour>|
+                self.wf(net, tours) && new_cycle.maintenance_counter == spec_cycle_counter(net, tours, new_cycle.cycle@);
+            self@.lemma_bounds(net, tours);
+            lemma_perm_tours_ok(self@, net, tours, cycle_idx as int, new_cycle.cycle@);
+            lemma_counter_bound(net, tours, new_cycle.cycle@);
+            assert(self.cyc(cycle_idx as int).len() <= self.total_len());
+        }
+//@before "Transition {"
+        proof {
+            assert(cycles@ =~= self.cycles@.update(cycle_idx as int, new_cycle));
+            let nv = TView { cycles: cycles@, total_violation: total_maintenance_violation as int, total_counter: total_maintenance_counter as int,
+                lookup: self.cycle_lookup@, empty: self.empty_cycles@ };
+            assert forall|net: &Network, tours: Map<VehicleIdx, Tour>|
+                self.wf(net, tours) && new_cycle.maintenance_counter == spec_cycle_counter(net, tours, new_cycle.cycle@)
+                implies #[trigger] nv.wf(net, tours) by {
+                lemma_perm_tours_ok(self@, net, tours, cycle_idx as int, new_cycle.cycle@);
+                lemma_frame(self@, nv, net, tours, tours, cycle_idx as int, new_cycle);
+            }
+        }
+//@end
 
 } // mod tr
 } // verus!
